@@ -289,13 +289,12 @@ pub fn run(seed: u64, tier: &str, out: &mut Out, fit_only: bool, c04: bool) {
     for _ in 0..n {
         let c = gen_case(&mut rng, fit_only);
         // a panic inside the crate is a failure of this history, not of the harness
+        let mut planned: Vec<String> = Vec::new();
+        for op in &c.ops { match op { BOp::Iter(n) => { for _ in 0..*n { planned.push("inc 1".into()); } planned.push("finishstyle".into()); } _ => planned.push(op.enc()) } }
+        crate::common::about_to_run(&encode(&c, &planned));
         let (obs, mut verdict, ops) = match std::panic::catch_unwind(std::panic::AssertUnwindSafe(|| run_case(&c))) {
             Ok(x) => x,
-            Err(_) => {
-                let mut ops: Vec<String> = Vec::new();
-                for op in &c.ops { match op { BOp::Iter(n) => { for _ in 0..*n { ops.push("inc 1".into()); } ops.push("finishstyle".into()); } _ => ops.push(op.enc()) } }
-                ("panic".to_string(), "FAIL panic: an operation of this history panics inside the crate".to_string(), ops)
-            }
+            Err(_) => ("panic".to_string(), "FAIL panic: an operation of this history panics inside the crate".to_string(), planned),
         };
         let case = encode(&c, &ops);
         // C04 uses these histories for its finish clauses only; the cursor finding F30 is judged by C01 / C19
